@@ -52,3 +52,7 @@ package main
 //@ modifies **as(out, **Config)
 //@ ensures result == yamlErr(in)
 //@ ensures (**as(out, **Config)).params == old((**as(out, **Config)).params)
+
+// ---- gogo generator: import registration
+//@ extern generator.PluginImports.NewImport(p, path)
+//@ ensures result != nil
